@@ -56,6 +56,24 @@ EvListItem(es, env) == [w |-> "evlist", es |-> es, i |-> 0, env |-> env, lm |-> 
 EvListSingle(es, env) == [w |-> "evlist", es |-> es, i |-> 0, env |-> env, lm |-> FALSE]
 BlockItem(b, env) == [w |-> "block", b |-> b, i |-> 1, env |-> env, base |-> Len(env), after |-> 0]
 CallItem(multi, ln) == [w |-> "call", m |-> multi, ln |-> ln]
+(* the call item of a proper tail call: the caller's activation is gone (no calling statement: ln = NoPos); tc counts the
+   activations lost so far in this chain, oln is the statement that made the first, ordinary call of the chain *)
+TailCallItem(multi, tc, oln) == [w |-> "call", m |-> multi, ln |-> <<0, 0>>, tc |-> tc, oln |-> oln]    \* <<0, 0>> is NoPos
+
+(* Stack levels as debug.getinfo / error count them (lua_getstack): level 1 is the running function, each activation lost to a
+   proper tail call is a level of its own ("(tail call)": no function, no line), then comes the function that made the first
+   call of the chain, executing the statement oln.  LevelAt(K, lv, cur) = <<"fn", index of the ret marker, current line>>,
+   <<"tail">>, <<"host">> (a host function called the level below: its levels are not modelled) or <<"none">>.  *)
+RECURSIVE LevelAt(_, _, _)
+LevelAt(K, lv, cur) ==
+    LET S == {i \in 1..Len(K) : K[i].w = "ret"}
+        r == IF S = {} THEN 0 ELSE CHOOSE i \in S : \A j \in S : j <= i IN
+    IF r = 0 THEN <<"none">>
+    ELSE IF lv = 1 THEN <<"fn", r, cur>>
+    ELSE IF lv - 1 <= K[r].tc THEN <<"tail">>
+    ELSE IF r = 1 THEN <<"none">>
+    ELSE IF K[r].oln = <<0, 0>> THEN <<"host">>
+    ELSE LevelAt(SubSeq(K, 1, r - 1), lv - 1 - K[r].tc, K[r].oln)
 
 (* index (from the top) of the nearest item satisfying a predicate *)
 NearestIdx(kont, P(_)) == LET s == {i \in 1..Len(kont) : P(kont[i])} IN
@@ -255,7 +273,7 @@ Bind(st, env, names, vs) ==
     IN <<AllocCells(st, AdjustN(vs, n)), env \o [i \in 1..n |-> <<names[i], base + i>>]>>
 
 (* ---- function entry ----------------------------------------------------------- *)
-EnterClosure(N, st, fref, args, multi, ln) ==
+EnterClosure(N, st, fref, args, multi, ln, tc, oln) ==
     LET c == st.heap[fref]
         fn == N[c.node]
         np == Len(fn.ps)
@@ -269,7 +287,7 @@ EnterClosure(N, st, fref, args, multi, ln) ==
                    IN Bind(s3, b1[2], <<"arg">>, <<<<"t", tref>>>>)
               ELSE b1
         marker == [w |-> "ret", m |-> multi, va |-> IF fn.va THEN extra ELSE <<>>, vh |-> Len(st.vals),
-                   ln |-> ln, fn |-> fref, base |-> Len(c.env)]
+                   ln |-> ln, fn |-> fref, base |-> Len(c.env), tc |-> tc, oln |-> oln]
     IN [s2[1] EXCEPT !.kont = Append(Append(@, marker), BlockItem(fn.b, s2[2]))]
 
 (* ---- statements ----------------------------------------------------------------- *)
@@ -521,11 +539,14 @@ Builtin(N, st, name, a, multi, ln) ==
                  THEN (IF ln = NoPos THEN Raise(st, <<"sfx", a1[2]>>)     \* error called by host code (pcall(error, msg)): position not judged
                        ELSE IF ~OneLine(ln) THEN Unmod(st, "error() call spans lines")
                        ELSE IF lv[2] = 1 THEN Raise(st, Str(PosPrefix(ln) \o a1[2]))
-                       ELSE IF lv[2] = 2
-                       THEN (LET r == CurRet(st) IN
-                             IF r.ln = NoPos \/ ~OneLine(r.ln) THEN Unmod(st, "error level 2 from host-called function")
-                             ELSE Raise(st, Str(PosPrefix(r.ln) \o a1[2])))
-                       ELSE Unmod(st, "error level > 2"))
+                       ELSE IF lv[2] <= 8
+                       THEN (LET at == LevelAt(st.kont, lv[2], ln) IN
+                             IF at[1] = "fn" THEN (IF ~OneLine(at[3]) THEN Unmod(st, "error level 2 from host-called function")
+                                                   ELSE Raise(st, Str(PosPrefix(at[3]) \o a1[2])))
+                             ELSE IF at[1] = "tail" THEN Unmod(st, "error level on a tail-call level")
+                             ELSE IF at[1] = "host" THEN Unmod(st, "error level 2 from host-called function")
+                             ELSE Unmod(st, "error level beyond the chunk"))
+                       ELSE Unmod(st, "error level > 8"))
                  ELSE IF IsOpaqueStr(a1) /\ lv[1] = "n" /\ lv[2] > 0 THEN Unmod(st, "rethrow of fault text with position")
                  ELSE Raise(st, a1))
       [] name = "assert" ->
@@ -578,11 +599,12 @@ Builtin(N, st, name, a, multi, ln) ==
             IF a1[1] = "f" THEN MkInfo(-1, a1[2])
             ELSE IF a1[1] # "n" THEN Unmod(st, "getinfo of host function")
             ELSE IF a1[2] = 1 THEN (IF ~OneLine(ln) \/ ln = NoPos THEN Unmod(st, "getinfo call spans lines") ELSE MkInfo(ln[1], st.kont[r1].fn))
-            ELSE IF a1[2] = 2
-                 THEN (LET r2 == NearestIdx(SubSeq(st.kont, 1, r1 - 1), IsRet) IN
-                       IF r2 = 0 THEN Unmod(st, "getinfo level beyond the chunk")
-                       ELSE IF st.kont[r1].ln = NoPos \/ ~OneLine(st.kont[r1].ln) THEN Unmod(st, "getinfo level 2 through host code")
-                       ELSE MkInfo(st.kont[r1].ln[1], st.kont[r2].fn))
+            ELSE IF a1[2] >= 2 /\ a1[2] <= 8
+                 THEN (LET at == LevelAt(st.kont, a1[2], ln) IN
+                       IF at[1] = "fn" THEN (IF ~OneLine(at[3]) THEN Unmod(st, "getinfo level 2 through host code") ELSE MkInfo(at[3][1], st.kont[at[2]].fn))
+                       ELSE IF at[1] = "tail" THEN Unmod(st, "getinfo of a tail-call level")
+                       ELSE IF at[1] = "host" THEN Unmod(st, "getinfo level 2 through host code")
+                       ELSE Unmod(st, "getinfo level beyond the chunk"))
             ELSE Unmod(st, "getinfo level"))
       [] name = "dbg.getlocal" \/ name = "dbg.setlocal" ->
            (LET r1 == NearestIdx(st.kont, IsRet)
@@ -590,7 +612,10 @@ Builtin(N, st, name, a, multi, ln) ==
                 RECURSIVE Below(_, _)          \* the continuation as seen from `lv` levels up; <<>> if a host-called frame intervenes
                 Below(K, lv) == IF lv <= 1 THEN K
                                 ELSE LET r == NearestIdx(K, IsRet) IN
-                                     IF r <= 1 \/ K[r].ln = NoPos THEN <<>> ELSE Below(SubSeq(K, 1, r - 1), lv - 1)
+                                     IF r <= 1 THEN <<>>
+                                     ELSE IF lv - 1 <= K[r].tc THEN <<>>                   \* a tail-call level has no variables
+                                     ELSE IF K[r].oln = NoPos THEN <<>>                    \* called by host code
+                                     ELSE Below(SubSeq(K, 1, r - 1), lv - 1 - K[r].tc)
                 K1 == IF a1[1] = "n" /\ a1[2] >= 1 /\ a1[2] <= 6 THEN Below(st.kont, a1[2]) ELSE <<>>
                 rr == NearestIdx(K1, IsRet)
                 bi == NearestIdx(K1, IsBlk) IN
@@ -750,7 +775,8 @@ Step(N, st) ==
       [] it.w = "call" ->
            (LET args == Top(V)  f == V[Len(V) - 1][1]
                 s1 == [s0 EXCEPT !.vals = PopN(V, 2)] IN
-            CASE f[1] = "f" -> EnterClosure(N, s1, f[2], args, it.m, it.ln)
+            CASE f[1] = "f" -> (IF "tc" \in DOMAIN it THEN EnterClosure(N, s1, f[2], args, it.m, it.ln, it.tc, it.oln)
+                                ELSE EnterClosure(N, s1, f[2], args, it.m, it.ln, 0, it.ln))
               [] f[1] = "bi" -> Builtin(N, s1, f[2], args, it.m, it.ln)
               [] f[1] = "wf" -> DoResume(s1, f[2], args, it.m, TRUE, it.ln)
               [] OTHER -> (LET h == MetaField(st, f, "__call") IN
@@ -764,7 +790,7 @@ Step(N, st) ==
             THEN [s0 EXCEPT !.kont = Append(Append(K0, [w |-> "doreturn"]), CallItem(TRUE, it.ln))]
             ELSE \* the caller's frame is gone: what "the calling statement" of the callee is
                  \* (error level 2, getinfo level 2) is not defined by the manual -> no position
-                 [s0 EXCEPT !.kont = Append(SubSeq(K0, 1, r - 1), CallItem(mk.m, NoPos)),
+                 [s0 EXCEPT !.kont = Append(SubSeq(K0, 1, r - 1), TailCallItem(mk.m, mk.tc + 1, mk.oln)),
                             !.vals = Append(Append(SubSeq(V, 1, mk.vh), f), args)])
       [] it.w = "ret" ->       \* the body fell off its end
            [s0 EXCEPT !.vals = Append(SubSeq(V, 1, it.vh), Adjust(<<>>, it.m))]
@@ -842,7 +868,7 @@ InitState(root) ==
         strkv == [i \in 1..Len(StrNames) |-> <<Str(Bytes(StrNames[i])), <<"bi", "str." \o StrNames[i]>>>>]
         dbgkv == [i \in 1..Len(DbgNames) |-> <<Str(Bytes(DbgNames[i])), <<"bi", "dbg." \o DbgNames[i]>>>>]
         cokv == [i \in 1..Len(CoNames) |-> <<Str(Bytes(CoNames[i])), <<"bi", "co." \o CoNames[i]>>>>]
-    IN [kont |-> <<[w |-> "ret", m |-> TRUE, va |-> <<>>, vh |-> 0, ln |-> NoPos, fn |-> 2, base |-> 0], BlockItem(root, <<>>)>>,
+    IN [kont |-> <<[w |-> "ret", m |-> TRUE, va |-> <<>>, vh |-> 0, ln |-> NoPos, fn |-> 2, base |-> 0, tc |-> 0, oln |-> NoPos], BlockItem(root, <<>>)>>,
         vals |-> <<>>,
         cells |-> <<>>,
         heap |-> <<[o |-> "tab", kv |-> gkv, mt |-> 0],
